@@ -51,6 +51,14 @@ ASSUMPTIONS = [
     "simulate(), to(), register_buffer() are the only legitimate writers of instrument buffers",
     "history independence is judged on deterministic models (no dropout) so that bit-identity is meaningful",
 ]
+ANCHORS = ['pfhedge.features.features:UnderlierSpot.get',
+           'pfhedge.features.features:Spot.get',
+           'pfhedge.features._base:Feature.of',
+           'pfhedge.features.container:ModuleOutput.of',
+           'pfhedge.features.container:FeatureList.of',
+           'pfhedge.nn.modules.hedger:Hedger.compute_hedge',
+           'pfhedge.nn.functional:pl']
+PYTEST_WORKLOAD = True  # thorough tier also runs /repo/tests with these passive monitors attached (DESIGN.md 2.7)
 DECIDING = ["buffer.untouched", "args.untouched", "history.independent"]
 REQUIRED_BRANCHES = ["feature.log_all_steps", "feature.module_output", "listed.spot", "op.fit", "op.to", "op.price", "seq.dtype_switch",
                      "seq.path_count_switch"]
